@@ -386,11 +386,11 @@ func (c *Ctx) exec(fr *frame, in ssa.Instruction) {
 		xv := c.get(fr, in.X)
 		if d, ok := xv.(DtypeV); ok {
 			// tensor.Dtype{reflect.Type}: the embedded type descriptor
-			n := "<symbolic dtype>"
+			n, k, sz := "<symbolic dtype>", -1, -1
 			if d.Idx >= 0 {
-				n = dtypeUniverse[d.Idx].Name()
+				n, k, sz = dtypeUniverse[d.Idx].Name(), int(dtypeUniverse[d.Idx].Kind()), int(dtypeUniverse[d.Idx].Size())
 			}
-			fr.env[in] = IfaceV{T: c.rtypeT(), V: RTypeV{Name: n}}
+			fr.env[in] = IfaceV{T: c.rtypeT(), V: RTypeV{Name: n, Kind: k, Size: sz, Sym: d.Sym}}
 			return
 		}
 		sv := xv.(StructV)
